@@ -41,9 +41,15 @@ The correspondence (family `tp`) ties `step`, `micro` and the schedule semantics
 `tp.TP` + `tp.MemoryStore` behind a wrapping `tp.Store`.
 -/
 import Macaroon.Lemmas.TPServer
+import Macaroon.Lemmas.TPDischarge
+import Macaroon.Lemmas.TPPoll
 
 namespace Macaroon.Props.C16
 open Macaroon.TP
+
+/-- inside this file `Action` is the service's action type (the token layer, imported for
+`discharge_refines`, has a bit mask of the same name in the enclosing namespace) -/
+abbrev Action := TP.Action
 
 /-! ### handler-level histories -/
 
@@ -220,6 +226,58 @@ theorem bad_ticket_short_circuits (st : Store) (v : Nat) (t : Ticket) (m : Mode)
     step st (.init v t m) = (st, .http 500 .internal false) :=
   step_foreign_init st m ho
 
+/-! ### the discharge, at the level of the token logic (C04/C05) -/
+
+section refines
+open Macaroon Macaroon.Lemmas Macaroon.Crypto
+variable {B : Type} [Crypto B] [LawfulCrypto B]
+
+/-- "The discharge satisfies exactly the caveat whose ticket started the flow and carries the caveats
+the application chose."  `serviceDischarge ka loc ticket rnd cavs` is what `respondDischarge` /
+`dischargePoller` compute (`DischargeTicket` with the service's key, `Add(cavs...)`, `String()`); the
+state machine above abstracts it to `mkDischarge tid ids`.  Whenever it yields a discharge `d` (for
+caveats that are neither third-party nor binding caveats nor wrapped attestations): the ticket opened
+under the service's key to a discharge key `rn`; `d`'s key-id IS the ticket — so by C04
+(`candidates_carry_the_ticket`) it is a candidate for the third-party caveats carrying that ticket and
+for no other —; it is a proof located at the service; its caveats are exactly the application's, in
+order, later duplicates (equal encodings) dropped; and it verifies under `rn`, the key the caveat's
+VerifierKey unseals to, yielding exactly those caveats (C05 `legit_discharge_verifies`).  Holds for
+every lawful instance: the symbolic one and the byte-level one. -/
+theorem discharge_refines (ka : B) (loc : Bytes) (ticket rnd : B) (cavs : List (Cav B)) (d : Mac B) (ids : List B)
+    (hc : ∀ c ∈ cavs, c.is3P = false ∧ c.isBind = false ∧ c.wrapsAttestation = false)
+    (h : serviceDischarge ka loc ticket rnd cavs = some d) :
+    ∃ rn tcs, openTicket ka ticket = .ok rn tcs ∧ d.nonce.kid = ticket ∧ d.loc = loc ∧ d.nonce.proof = true ∧
+      d.cavs = (Macaroon.dedup [] (cavs.map AddItem.plain) []).map AddItem.asCav ∧
+      verifyFlat rn d ids true = .ok d.cavs :=
+  Lemmas.discharge_refines ka loc ticket rnd cavs d ids hc h
+
+/-- a ticket the service's key does not open yields no discharge (the `bad` tickets of the model) -/
+theorem unopened_ticket_no_discharge (ka : B) (loc : Bytes) (ticket rnd : B) (cavs : List (Cav B))
+    (h : ∀ rn tcs, openTicket ka ticket ≠ .ok rn tcs) : serviceDischarge ka loc ticket rnd cavs = none :=
+  serviceDischarge_none_of_unopened ka loc ticket rnd cavs h
+
+/-- the caveat list of the model's discharge IS the caveat list of the real one: under any naming `ι`
+of caveats by ids that identifies exactly the caveats with equal encodings, the discharge built from
+`ids.map ι` carries `(mkDischarge tid ids).caveats.map ι` -/
+theorem discharge_refines_model (ι : Nat → Cav B) (hι : ∀ a b, sameEnc (ι a) (ι b) = (a == b))
+    (ka : B) (loc : Bytes) (ticket rnd : B) (tid : Nat) (cs : List Nat) (d : Mac B)
+    (hc : ∀ c ∈ cs.map ι, c.is3P = false ∧ c.isBind = false ∧ c.wrapsAttestation = false)
+    (h : serviceDischarge ka loc ticket rnd (cs.map ι) = some d) :
+    d.cavs = (mkDischarge tid cs).caveats.map ι ∧ d.nonce.kid = ticket := by
+  obtain ⟨rn, tcs, _, hk, _, _, hcavs, _⟩ := Lemmas.discharge_refines ka loc ticket rnd (cs.map ι) d [] hc h
+  exact ⟨by rw [hcavs, tp_dedup_abstracts ι hι cs]; rfl, hk⟩
+
+/-- non-vacuity: for a ticket sealed under the service's key (an AEAD key, an AEAD nonce, a body
+within the codec's domain) the service does build a discharge, here without extra caveats -/
+example (ka tn rn rnd : B) (loc : Bytes) (tcs : List (Cav B)) (hk : LawfulCrypto.okKey ka) (hn : LawfulCrypto.okNonce tn)
+    (hb : LawfulCrypto.okTicketBody rn tcs) :
+    serviceDischarge ka loc (sealTicket ka tn rn tcs) rnd [] =
+      some (encodeState (mint rn (sealTicket ka tn rn tcs) loc rnd true)) := by
+  simp [serviceDischarge, dischargeTicket, LawfulCrypto.openTicket_sealTicket ka tn rn tcs hk hn hb, add, mint,
+    allEncodable, Macaroon.dedup, addLoop]
+
+end refines
+
 /-! ### every interleaving of store operations -/
 
 /-- Whatever the schedule: a handler that returned a discharge `d` is an `init` at the service that
@@ -308,6 +366,38 @@ theorem il_gone_after_collection_hb (s0 s1 : List Sched) (i v ps us tid : Nat) (
   rw [this] at hret'
   exact gone_hb s0 s1 hret hdel hins hj hret' hk hkk
 
+/-- Whatever the schedule: EVERY answer of a poll handler is justified by what its own `Get` returned
+(`PollAns`): the key was not there → 404 "not found"; the stored ticket does not open under the
+addressed service's key → 500; a record without a response → 202 "not ready"; a record with a stored
+response `r` → exactly `r` (or 500 when the delete that precedes delivery finds the key gone).  So,
+under every interleaving, "not ready" is only ever answered for a flow that was undecided when the
+handler looked, an abort's error / an approval's discharge is only delivered from a record that held
+it, and nothing else can be answered.  (`il_discharge_only_after_approval` adds what a stored
+discharge implies about the trace before that `Get`.) -/
+theorem il_poll_answer_justified (sched : List Sched) (i v s : Nat) (o : Out)
+    (hret : Ev.returned i (.poll v s) o ∈ (Sys.run sched).2) :
+    ∃ res, Ev.op i (.poll v s) (.got (pollKey s) res) ∈ (Sys.run sched).2 ∧ PollAns v res o :=
+  (pinv_run sched).ret i v s o hret
+
+/-- `PollAns`, spelled out -/
+theorem pollAns_iff (v : Nat) (res : Option Data) (o : Out) :
+    PollAns v res o ↔
+      (res = none ∧ o = .http 404 .notFound false) ∨
+      (∃ sd, res = some sd ∧ opens v sd.ticket = none ∧ o = .http 500 .internal false) ∨
+      (∃ sd tid, res = some sd ∧ opens v sd.ticket = some tid ∧ sd.resp = none ∧ o = .http 202 .notReady false) ∨
+      (∃ sd tid r, res = some sd ∧ opens v sd.ticket = some tid ∧ sd.resp = some r ∧
+        (o = .http r.status r.body false ∨ o = .http 500 .internal false)) := by
+  unfold PollAns
+  cases res with
+  | none => simp [outNotFound]
+  | some sd =>
+    cases ho : opens v sd.ticket with
+    | none => simp [outInternal, ho]
+    | some tid =>
+      cases hr : sd.resp with
+      | none => simp [outNotReady, ho, hr]
+      | some r => simp [deliver, outInternal, ho, hr]
+
 /-- The two semantics agree on sequential schedules: running every handler to completion before
 the next is spawned yields the handler-level store and, per handler, the handler-level answer. -/
 theorem sequential_schedule_refines (as : List Action) :
@@ -381,6 +471,16 @@ example : Ev.returned 3 (.userVisit 0 0) (.http 404 .notFound false) ∈
 example : Ev.returned 0 (.poll 0 9) (.http 404 .notFound false) ∈ (Sys.run [.spawn (.poll 0 9), .step 0]).2 := by
   decide
 
+/-- hypothesis of `il_poll_answer_justified`: the delivering poll of the schedule above, and a poll
+that races ahead of the approval and is told "not ready" -/
+example : ∃ res, Ev.op 2 (.poll 1 1) (.got (pollKey 1) res) ∈
+    (Sys.run [.spawn (.init 1 (.good 7) .poll), .step 0, .spawn (.approvePoll 1 1 [3]), .step 1, .step 1,
+      .spawn (.poll 1 1), .step 2, .step 2, .step 2]).2 ∧ PollAns 1 res (.http 200 (.discharge ⟨7, [3]⟩) false) :=
+  il_poll_answer_justified _ 2 1 1 _ (by decide)
+example : Ev.returned 2 (.poll 1 1) (.http 202 .notReady false) ∈
+    (Sys.run [.spawn (.init 1 (.good 7) .poll), .step 0, .spawn (.approvePoll 1 1 [3]), .step 1,
+      .spawn (.poll 1 1), .step 2, .step 1]).2 := by decide
+
 end Macaroon.Props.C16
 
 #print axioms Macaroon.Props.C16.discharge_only_after_approval
@@ -410,3 +510,8 @@ end Macaroon.Props.C16
 #print axioms Macaroon.Props.C16.il_gone_after_collection_hb
 #print axioms Macaroon.Props.C16.sequential_schedule_refines
 #print axioms Macaroon.Props.C16.racing_polls_both_answered
+#print axioms Macaroon.Props.C16.discharge_refines
+#print axioms Macaroon.Props.C16.unopened_ticket_no_discharge
+#print axioms Macaroon.Props.C16.discharge_refines_model
+#print axioms Macaroon.Props.C16.il_poll_answer_justified
+#print axioms Macaroon.Props.C16.pollAns_iff
